@@ -57,6 +57,25 @@ def check(ctx):
         fi = P.functions[q]
         ctx.report("T2", fi, construct, f"{f.what}: the result changes with PYTHONHASHSEED", f.node)
     ctx.ok("T2", f"{len(P.functions)} functions, {oa.sites} set sites", f"no order-sensitive consumer of a set ({n_benign} reviewed-benign constructs)")
+    # R12.4 - a *request* that is a set by nature (the axes a metric is asked for, the axes to integrate / average over: C10 says
+    # "every requested axis set in every order") may be handed over as a Python set: the entry is re-analysed with that parameter
+    # carrying the set flag; an order-sensitive consumer reached only then is one whose answer follows the caller's hash seed
+    base_keys = set(oa.findings)
+    # (integrate / average hand `axis` on to get_metric and otherwise only to a reduction over the dimensions, which does not depend
+    #  on the order in which they are listed - they are covered through get_metric)
+    SET_REQUESTS = (("grid:Grid.get_metric", "axes"), ("grid:Grid.set_metrics", "key"))
+    for q, param in SET_REQUESTS:
+        if q not in P.functions or param not in P.functions[q].all_param_names():
+            ctx.unknown("R12.4", f"{q}({param})", "entry point or parameter not found")
+            continue
+        oa.analyse(q, ((param, frozenset({"set"})),))
+        new = [(k, f) for k, f in sorted(oa.findings.items()) if k not in base_keys and k not in REVIEWED_BENIGN]
+        base_keys |= set(oa.findings)
+        if new:
+            for (fq, construct), f in new[:3]:
+                ctx.report("R12.4", P.functions[fq], construct, f"when `{param}` of {q.split(':')[1]} is given as a set: {f.what} - the answer follows the iteration order of the caller's set (PYTHONHASHSEED)", f.node)
+        else:
+            ctx.ok("R12.4", f"{q.split(':')[1]}({param} given as a set)", "no order-sensitive consumer: the order comes from the grid's own axis order")
     # positive fixture
     fx = pathlib.Path(__file__).resolve().parent.parent / "fixtures" / "order_example.py"
     try:
